@@ -3,6 +3,7 @@
    that instance, verdicts. *)
 From Coq Require Import List NArith Bool Arith PeanoNat.
 From FS Require Import Sx Model.Path Model.Stat Model.Tree Model.Lts Model.LtsExplore.
+From FSGen Require FromSource.
 Import ListNotations.
 Local Open Scope nat_scope.
 
@@ -45,22 +46,30 @@ Definition expected_reqs (cs : list cent) : list nat :=
 
 (* ---------- abstraction of a scenario to a small LTS instance ---------- *)
 Inductive cfault :=
-| CNone | CBreak (side : bool) (k : nat) | CCancel (side : bool) (k : nat)
+| CNone | CBreak (side : bool) (k : nat) | CCancel (which : N) (k : nat)
 | CWalk (a : nat) | CRead (a b : nat) | COpen (a : nat) | CHash (a : nat) | CNotify (a : nat).
 
-Definition dec_fault (s : sx) : option cfault :=
+Definition dec_fault_core (k a b : N) : option cfault :=
+  let a' := N.to_nat a in let b' := N.to_nat b in
+  if N.eqb k 0 then Some CNone
+  else if N.eqb k 1 then Some (CBreak (N.odd a) b')
+  else if N.eqb k 2 then Some (CCancel (N.land a 3) b')
+  else if N.eqb k 3 then Some (CWalk a')
+  else if N.eqb k 4 then Some (CRead a' b')
+  else if N.eqb k 5 then Some (COpen a')
+  else if N.eqb k 6 then Some (CHash a')
+  else if N.eqb k 7 then Some (CNotify a')
+  else None.
+
+(* (kind a b [hold [stall]]): hold <> 0 = the fault is held back until quiescence; stall = 1 + index
+   of the entry whose receiver-side callbacks block until then (0 = none) *)
+Definition dec_fault (s : sx) : option (cfault * bool * option nat) :=
   match s with
-  | SL [SN k; SN a; SN b] =>
-      let a' := N.to_nat a in let b' := N.to_nat b in
-      if N.eqb k 0 then Some CNone
-      else if N.eqb k 1 then Some (CBreak (N.odd a) b')
-      else if N.eqb k 2 then Some (CCancel (N.odd a) b')
-      else if N.eqb k 3 then Some (CWalk a')
-      else if N.eqb k 4 then Some (CRead a' b')
-      else if N.eqb k 5 then Some (COpen a')
-      else if N.eqb k 6 then Some (CHash a')
-      else if N.eqb k 7 then Some (CNotify a')
-      else None
+  | SL [SN k; SN a; SN b] => f <- dec_fault_core k a b ;; Some (f, false, None)
+  | SL [SN k; SN a; SN b; SN h] => f <- dec_fault_core k a b ;; Some (f, negb (N.eqb h 0), None)
+  | SL [SN k; SN a; SN b; SN h; SN st] =>
+      f <- dec_fault_core k a b ;;
+      Some (f, negb (N.eqb h 0), if N.eqb st 0 then None else Some (N.to_nat st - 1))
   | _ => None
   end.
 
@@ -78,15 +87,33 @@ Definition fault_target (cs : list cent) (f : cfault) : option nat :=
 Definition indexed {A} (l : list A) : list (nat * A) := combine (seq 0 (length l)) l.
 Definition opt_list {A} (o : option A) : list A := match o with Some x => [x] | None => [] end.
 
+(* How many of the m entries that follow the held entry are kept.  The real receiver parks its
+   receive loop in dynamicWalker.update once walkChan (cap C) and the diff channel (cap C2) are
+   full and fill holds one more entry; the abstract instance has C = C2 = 1, so the count is
+   mapped threshold by threshold: not beyond walkChan, not beyond walkChan + diff channel, exactly
+   one more (in fill's hand), beyond (receive loop parked, sender blocked behind it). *)
+Definition real_C : nat := N.to_nat FromSource.dynwalker_cap.
+Definition real_C2 : nat := N.to_nat (nth 1 FromSource.diff_chan_caps 128%N).
+Definition abs_followers (m : nat) : nat :=
+  if m <=? real_C then Nat.min m 1
+  else if m <=? real_C + real_C2 then 2
+  else if m <=? real_C + real_C2 + 1 then 3
+  else 5.
+
 (* the entries kept: the fault target and the nearest requested file before it (a transfer in
-   flight when the fault strikes); without a target the first requested file (else the first
-   entry handled synchronously); gated: the first two requested files *)
-Definition abstract_entries (cs : list cent) (target : option nat) (gated : bool)
+   flight when the fault strikes); when the fault is held back until quiescence also the entries
+   that pile up behind the target (see abs_followers); without a target the first requested file
+   (else the first entry handled synchronously); gated: the first two requested files *)
+Definition as_backlog (e : entry) : entry := {| e_file := e_file e; e_chunks := e_chunks e; e_kind := ESame |}.
+Definition abstract_entries (cs : list cent) (target : option nat) (gated pile backlog_only : bool)
   : list entry * nat (* new index of the target *) :=
   match target with
   | Some t =>
       let before := find (fun ie => (fst ie <? t) && is_need (ce_kind (snd ie))) (indexed cs) in
-      (map (fun ie => to_entry 1 (snd ie)) (opt_list before) ++ map (to_entry 2) (opt_list (nth_error cs t)),
+      let after := if pile then firstn (abs_followers (length cs - S t)) (skipn (S t) cs) else [] in
+      (map (fun ie => to_entry 1 (snd ie)) (opt_list before) ++ map (to_entry 2) (opt_list (nth_error cs t))
+       ++ map (to_entry 1) (firstn 1 after)
+       ++ map (fun c => if backlog_only then as_backlog (to_entry 1 c) else to_entry 1 c) (skipn 1 after),
        length (opt_list before))
   | None =>
       let needs := filter (fun c => is_need (ce_kind c)) cs in
@@ -95,7 +122,7 @@ Definition abstract_entries (cs : list cent) (target : option nat) (gated : bool
                          else match needs with c :: _ => [c] | [] => firstn 1 metas end), 0)
   end.
 
-Definition abstract_fault (cs : list cent) (f : cfault) (t' : nat) : fault :=
+Definition abstract_fault (cs : list cent) (f : cfault) (hold : bool) (t' : nat) : fault :=
   match fault_target cs f, f with
   | Some _, CWalk _ => FWalkErr t'
   | Some a, CRead _ b =>
@@ -104,14 +131,54 @@ Definition abstract_fault (cs : list cent) (f : cfault) (t' : nat) : fault :=
   | Some _, COpen _ => FOpenErr t'
   | Some _, CHash _ => FHashErr t'
   | Some _, CNotify _ => FNotifyErr t'
-  | _, CBreak side k => FBreak side (k =? 0)
-  | _, CCancel side k => FCancel side (k =? 0)
+  | _, CBreak side k => FBreak side ((k =? 0) && negb hold)     (* held: the position is ignored *)
+  | _, CCancel which k =>
+      let at0 := (k =? 0) && negb hold in
+      (* which context: 0 Send's, 1 Receive's, 2 the stream's, 3 one context shared by all three *)
+      if N.eqb which 0 then FCancel false at0 else if N.eqb which 1 then FCancel true at0
+      else if N.eqb which 2 then FCancelStream at0 else FCancelAll at0
   | _, _ => FNone
   end.
 
-Definition abstract (cs : list cent) (f : cfault) (gated : bool) (cap : nat) : scenario * params :=
-  let '(es, t') := abstract_entries cs (fault_target cs f) gated in
-  ({| sc_fault := abstract_fault cs f t'; sc_gated := gated |},
+(* a stalled entry that the receiver never hashes / notifies (unchanged, out of range) stalls nothing *)
+Definition stall_target (cs : list cent) (stall : option nat) : option nat :=
+  match stall with
+  | Some i => match kind_at cs i with Some ESame | None => None | Some _ => Some i end
+  | None => None
+  end.
+
+Definition abstract (cs : list cent) (f : cfault) (gated hold : bool) (stall : option nat) (cap : nat)
+  : scenario * params :=
+  let ft := fault_target cs f in
+  let st := if hold then stall_target cs stall else None in
+  (* the entry around which the instance is built: the fault target, else the stalled entry *)
+  let pivot := match ft with Some t => Some t | None => st end in
+  (* entries pile up behind the pivot only while the diff loop itself is blocked on it: a held
+     callback fault, or a stall, in a synchronously handled entry *)
+  let pile := hold && match pivot with
+                      | Some t => match kind_at cs t, ft with
+                                  | Some EMeta, Some _ => match f with CHash _ | CNotify _ => true | _ => false end
+                                  | Some EMeta, None => true
+                                  | _, _ => false
+                                  end
+                      | None => false
+                      end in
+  (* when the postponed event hits the sender (its context, the stream, or everything) the
+     entries behind the pivot only matter as a backlog that keeps the walker busy: the sender
+     serves none of them any more; all but the first are kept as unchanged entries to keep the
+     instance small *)
+  let backlog_only := match f with
+                      | CCancel w _ => negb (N.eqb w 1)
+                      | CBreak side _ => negb side
+                      | _ => false
+                      end in
+  let '(es, t') := abstract_entries cs pivot gated pile backlog_only in
+  let f' := match ft with Some _ => abstract_fault cs f hold t' | None => abstract_fault cs f hold 0 end in
+  let st' := match st, pivot with
+             | Some i, Some t => if i =? t then Some t' else None   (* a stall elsewhere is not kept *)
+             | _, _ => None
+             end in
+  ({| sc_fault := f'; sc_gated := gated; sc_stall := st'; sc_hold := hold |},
    {| p_W := 1; p_P := if gated then 0 else 1; p_C := 1; p_C2 := 1; p_capSR := Nat.min cap 1;
       p_capRS := if gated then 2 else Nat.min cap 1; p_entries := es; p_old_queue := false |}).
 
@@ -124,15 +191,20 @@ Definition sig_k3 : bytes := (* "open-error-empty-file-success" *)
 Definition tag_sig : bytes := [115;105;103]%N.
 
 Definition run_0401 (input impl : sx) : sx :=
-  match input, impl with
+  (* the optional 7th field (source kind: in-memory / on-disk walker) does not change the model *)
+  let input6 := match input with
+                | SL [v; pr; f; fan; cap; chunk; _] => SL [v; pr; f; fan; cap; chunk]
+                | _ => input
+                end in
+  match input6, impl with
   | SL [v; pr; f; SN fan; SN cap; SN chunk],
     SL [SN snd_; SN rcv; hung; SN leaks; fs; SL diffs; SN follow; errs; errr; fired; bigfan] =>
     match dec_view v, dec_view pr, dec_fault f,
           sx_bool hung, sx_bool fs, sx_bool errs, sx_bool errr, sx_bool fired with
-    | Some view, Some prior, Some cf, Some hung', Some fs', Some errs', Some errr', Some fired' =>
+    | Some view, Some prior, Some (cf, hold, stall), Some hung', Some fs', Some errs', Some errr', Some fired' =>
       let cs := classify_all chunk view prior in
       let gated := negb (N.eqb fan 0) in
-      let '(sc, p) := abstract cs cf gated (N.to_nat cap) in
+      let '(sc, p) := abstract cs cf gated hold stall (N.to_nat cap) in
       let r := explore_scenario explore_fuel sc p in
       let observed := 3 * ret_code snd_ + ret_code rcv + (if hung' then 9 else 0) in
       let in_model := res_complete r && memb observed (res_outcomes r) in
